@@ -14,6 +14,10 @@
     Funcs/Tpl    the generic SkipDecoderTpl.Skip over an abstract SkipN back end = skipTplAt, and its three instances (C02 C03 C08)
     Funcs/TTHDecode  ttheader.Decode over an abstract bufiox.Reader = decodeG, instances decodeRd / decodeCur (C03 C06 C10)
     Funcs/StreamW    the 14 BufferWriter.Write* over an abstract bufiox.Writer = Wire.bw* over the log model (C01 C12)
+    Funcs/StreamSkip BufferReader.next/skipn/skipstr/skipType/Skip over the reader model as a ReaderI (Funcs/RdI) = brNext, brSkipn,
+                     brSkipStr, skipBRAt, skipBR (C02 C03 C08 C17)
+    Funcs/Dec        BytesSkipDecoder.SkipN/Reset/Next = bytesBackend / bytesDecNext; SkipDecoder.SkipN/Next over the reader model
+                     = bufioxBackend / bufioxDecNext, through the generalised template simulation Funcs/TplG (C02 C03 C08)
 -/
 import Verif.Lemmas.Funcs.Read
 import Verif.Lemmas.Funcs.Write
@@ -25,6 +29,8 @@ import Verif.Lemmas.Funcs.Fc
 import Verif.Lemmas.Funcs.Tpl
 import Verif.Lemmas.Funcs.TTHDecode
 import Verif.Lemmas.Funcs.StreamW
+import Verif.Lemmas.Funcs.StreamSkip
+import Verif.Lemmas.Funcs.Dec
 namespace Verif.FuncsEq
 
 /-- every whitelisted function was translated in this run (a refused one has no definition and no theorem) -/
